@@ -70,6 +70,11 @@ def gen(rng):
             base = top            # directly below the top directory: the relative Path begins with the blank
         loc = base + '/' + nm
         pv = TG.pct(loc if top is None else loc[len(top) + 1:])
+        if rng.random() < 0.05 and late is None:
+            # a Path written by another trasher as '$PWD/$1' from inside a directory that is gone by now: '<gone>/../<name>' - the
+            # kernel cannot walk it until somebody creates <gone>; the destination it names is occupied all the same
+            spelled = base + '/gone%d/../' % i + nm
+            pv = TG.pct(spelled if top is None else spelled[len(top) + 1:])
         # (7 %: only the .trashinfo is there - a restore that was stopped after its move, a half-done purge; such an entry is
         # listed like any other, and an occupied destination is a reason to refuse it like any other)
         G.add_trashed(steps, tdir, tn, pv, TG.iso(TG.rand_date(rng)), rng.choice(['file', 'dir', 'link']) if not nopayload else 'none', tag=str(i))
@@ -352,6 +357,10 @@ def check(sim, case, st):
                 res.append(('C06/refusal-exit0/trashed=%s/dest=%s' % (tk, dk), 'destination %r (%s) was occupied, no --overwrite, exit status 0; stderr %r' % (loc, dk, r.errs[-200:])))
             if k > 0:
                 st.probes['restored-before-refusal'] += 1
+        elif action == 'free' and '/../' in loc:
+            # ('<gone>/../x' with a free destination: making the parent directory 'gone/..' fails - refusing is harmless and not
+            # C06's business; what matters for this spelling is the OCCUPIED destination)
+            st.probes['dotted-path-free-destination-not-restored'] += 1
         elif action == 'free':
             res.append(('C06/free-destination-not-restored/%s' % tk, 'destination %r was free and selected, but the entry %r did not leave the trash (exit %s) stderr %s'
                         % (loc, e, r.exit, r.errs[-300:])))
